@@ -96,12 +96,23 @@ pub fn keys_id(k: &SessionKeys) -> String {
     format!("{:x}", fnv64(&v))
 }
 
+/// an epoch>0 Handshake record whose body is exactly one self-consistent unfragmented handshake message was not
+/// sealed (an AEAD output passes this test with probability ~2^-70): the code sends such a record when it reaches
+/// its Finished without keys
+fn looks_clear_hs(body: &[u8]) -> bool {
+    if body.len() < 12 { return false; }
+    let total = ((body[1] as usize) << 16) | ((body[2] as usize) << 8) | body[3] as usize;
+    let off = ((body[6] as usize) << 16) | ((body[7] as usize) << 8) | body[8] as usize;
+    let flen = ((body[9] as usize) << 16) | ((body[10] as usize) << 8) | body[11] as usize;
+    off == 0 && total == flen && 12 + flen == body.len()
+}
+
 pub fn descr_hs(dg: &[u8]) -> Vec<String> {
     parse_records(dg).iter().map(|r| {
         if r.ctype == 23 || r.ctype == 21 {
             if r.epoch > 0 { format!("{}.{}.{}.{}{}", r.ctype, r.epoch, r.seq, r.body.len() as i64 - 24, nonce_tag(r)) }
             else { format!("{}.{}.{}.{}", r.ctype, r.epoch, r.seq, r.body.len()) }
-        } else if r.ctype == 22 && r.epoch == 0 {
+        } else if r.ctype == 22 && (r.epoch == 0 || looks_clear_hs(&r.body)) {
             match parse_hs(&r.body).first() {
                 Some(m) => format!("22.{}.{}:{}.{}.{}", r.epoch, r.seq, m.typ, m.seq, m.body.len()),
                 None => format!("22.{}.{}:?", r.epoch, r.seq),
@@ -137,6 +148,8 @@ pub struct Recd {
 impl Recd {
     pub async fn new(is_client: bool, cert: Certificate, expected: Option<String>) -> Recd {
         let ep = Endpoint::new(is_client, cert, expected.clone()).await;
+        // the key log is keyed by an address: drop whatever an earlier transport at the same address left behind
+        let _ = rustrtc::verif_hooks::dtls::take_keys(ep.dtls.verif_instance_id());
         Recd { ep, expected, ops: vec![], outs: vec![], facts: BTreeMap::new(), keys: vec![], own: vec![], certs_seen: vec![],
             srs_seen: vec![], last_ske_share: None, frag: (0, vec![]), ticks_done: 0, shown_cert_fps: vec![], sig_ok_under: vec![], clear_violations: vec![] }
     }
